@@ -713,6 +713,18 @@ func liqDrive(t *testing.T, mode string) {
 		if !c04 && ci < 2 {
 			w.liqRegressionMM(w.apps[1-ci]) // app 2 / pair 1, then app 1 / its highest pair
 		}
+		if c04 && g.chance(35) {
+			// the creator withdraws the WHOLE pool-coin supply of a fresh pool in a batch of its own:
+			// the supply reaches zero and the pool must be marked disabled
+			app := w.apps[g.intn(3)]
+			if pools := w.k.GetAllPools(w.ctx, app); len(pools) > 0 {
+				pl := pools[g.intn(len(pools))]
+				w.opWithdraw(app, 90, pl.Id, bal(w.a, w.ctx, addrN(90), pl.PoolCoinDenom))
+				w.opEnd()
+				w.now = w.now.Add(10 * time.Second)
+				w.opBegin()
+			}
+		}
 		nb := 3 + g.intn(6)
 		for b := 0; b < nb; b++ {
 			nops := 10 + g.intn(31)
